@@ -51,6 +51,8 @@ func runC14(c *Ctx) {
 		m.deliveries()
 	}
 	c.RulePrefix = ""
+	transferRecvChecked(c, "R3")
+	requestHeaderVerbatim(c, "R1")
 	fc := p.Fn("commands", "filterCommand")
 	ds := p.Fn("commands", "delayedSmudge")
 	if fc == nil || ds == nil {
